@@ -1,8 +1,12 @@
 SPECIFICATION Spec
 CONSTANTS
-  Interval = 4
+  Interval = 8
   MaxLen = 3
   Thresholds = {0, 2}
   AnswerDelays = {0}
   DrainLens = {1, 2}
+  HsSlots <- WitHsSlots
+  CtxSlots <- WitCtxSlots
+  EnvMaxLen = 3
+  EnvProduct = FALSE
 CHECK_DEADLOCK FALSE
